@@ -25,10 +25,15 @@ def enters(bmin, bmax, o, d, inflate, strict_margin=0):
     return True
 
 def judge(ln):
-    if ln.op != 'bb.hit': return ('skip', 'leaf')
+    if ln.op not in ('bb.hit', 'bb.newhit'): return ('skip', 'leaf')
     A = ln.args
     if not all_finite(A[:12]): return ('skip', 'malformed-operand')
     bmin, bmax, o, d = V(A, 0), V(A, 3), V(A, 6), V(A, 9)
+    if ln.op == 'bb.newhit':
+        # the two corners as handed to BBox3D::new, in any order: the box they span
+        ca, cb = bmin, bmax
+        bmin = tuple(min(ca[k], cb[k]) for k in range(3))
+        bmax = tuple(max(ca[k], cb[k]) for k in range(3))
     if d == (0, 0, 0): return ('skip', 'zero-direction')
     # the caller-supplied reciprocal must be the float reciprocal of d (±inf for zeros): the generator guarantees it
     got = ln.res[0] == '1'
